@@ -67,4 +67,23 @@ CLAIMED = {
         note='Text-level error classes (lexing/syntax errors, byte mutations) and never-hangs are outside: the regex lexer and the '
              'LALR tables cannot be driven by symbolic strings. Operand magnitudes are bounded per operator (see evidence).',
         technique=_T_PYSYM, ref='DESIGN.md 2/C14'),
+    'C02': dict(
+        text='Bounded symbolic verification: the whole real pipeline (parser, preprocessor, labels_resolve, Writer, Reader on the '
+             'written bytes) runs on every statement sequence of length <= 3 (4 in thorough) over {flip;jump, flip;, wflip a,v, wflip a,v,r, '
+             'pad, reserve, segment} plus curated longer ones; op words stay symbolic to the final comparison, layout operands (pad '
+             'alignment, reserve size, segment address, wflip value bits) are enumerated by the solver. Every word, label, reserved '
+             'range and segment start is compared with an independent reference layouter, and every wflip chain is walked in the '
+             'produced image (flips exactly the set bits once each, returns, auxiliary ops only in pad holes / wflip areas).',
+        note='Trusted: the reference layouter in fjv/checks/c02.py; stubs of fjv/fjmio.py. wflip targets/returns are two fixed far '
+             'addresses; width/version pairs (16,1) (64,3) in quick, 5 pairs in thorough.',
+        technique=_T_PYSYM, ref='DESIGN.md 2/C02'),
+    'C15': dict(
+        text='Bounded symbolic verification: the real _run_featured with a real BreakpointHandler runs from the fully symbolic '
+             'machine state of C01 with a symbolic starting op count, a symbolic pending next-break and an arbitrary breakpoint '
+             'predicate, for 16 command scripts; the pauses (address, op count, before any IO or memory effect of the op) and the '
+             'run\'s observables are proved equal to pyspec + a 15-line model of the debugger commands (step = 1 op, skip N = N ops, '
+             'continue, continue-all, quit = keyboard interrupt). Read commands: the value shown equals the addressed word / the '
+             'bit, hex or byte vector decoded at dbit with stride 2w, and memory is unchanged.',
+        note='K=1 from ip 0 and K=2 with the C01 trampoline; label pretty-printing stubbed; terminal IO scripted.',
+        technique=_T_PYSYM + '; product-program comparison', ref='DESIGN.md 2/C15'),
 }
